@@ -41,7 +41,8 @@ THEOREMS = [
     ('c16_height_partial',
      'forall k : Z, 0 <= k <= 14 -> let n := 2 ^ k in (height (fam step_append n) <= 5 * Z.log2 (n + 1) + 20 /\\ Heap (fam step_append n) /\\ tsize isize (fam step_append n) = n) /\\ (height (fam step_front n) <= 5 * Z.log2 (n + 1) + 20 /\\ Heap (fam step_front n) /\\ tsize isize (fam step_front n) = n) /\\ (height (fam step_rotate n) <= 5 * Z.log2 (n + 1) + 20 /\\ Heap (fam step_rotate n) /\\ tsize isize (fam step_rotate n) = n)'),
 ]
-RULE = ("the multi-treap histories of C03 (two item kinds; priorities random / tiny range with ties / all equal / increasing / "
+RULE = ("the multi-treap histories of C03, including move = remove_at followed by insert_at of the returned item object, whose new node "
+        "draws a new priority (two item kinds; priorities random / tiny range with ties / all equal / increasing / "
         "decreasing / native draws of the thread-local generator); observed = full final shape of every live treap through the "
         "public fields left/right/priority/item + final collect(); non-trivial = some final treap has >= 3 nodes and the history "
         "contains a split or merge; implementation-level search (extra): sorted appends, front inserts, split-and-swap rotations, "
@@ -58,6 +59,9 @@ shrink = c03.shrink
 
 def generate(rng, tier):
     cases = c03.exhaustive_small(4 if tier == "quick" else 5)
+    # move = remove_at + insert_at of the returned item object: every priority assignment, every pair of positions
+    cases += c03.exhaustive_move(3, 3, kinds=(0, 1)) if tier == "quick" else c03.exhaustive_move(5, 3, kinds=(0, 1))
+    cases += c03.native_move(4 if tier == "quick" else 6, kinds=(0, 1))
     n = 1100 if tier == "quick" else 25000
     modes = ["random", "random", "tiny", "tiny", "equal", "inc", "dec", "native", "native", "native"]
     for t in range(n):
@@ -112,7 +116,7 @@ def nontrivial(c, obs):
     if so is None:
         return False
     _, sizes = parse_shapes(so[1], c["kind"])
-    return max(sizes + [0]) >= 3 and any(op[0] in ("A", "B", "M", "I", "R") for op in c["ops"])
+    return max(sizes + [0]) >= 3 and any(op[0] in ("A", "B", "M", "I", "R", "V") for op in c["ops"])
 
 
 def classify(c, obs):
@@ -169,7 +173,7 @@ MANIFEST = {
             "edge - in the exact form of the code: <= towards the left child, < towards the right child, ties go right - after every "
             "history, for every priority stream and ANY item functions); c16_priorities_only_moved (per operation) and "
             "c16_history_priorities (history level: priorities are created once, never changed, and stay attached in order to their "
-            "elements); c16_canonical (distinct priorities), c16_canonical_ties and c16_cartesian (no distinctness needed: the tree IS "
+            "elements; a move = remove_at + insert_at of the returned item object carries the value to a NEW node with the next priority); c16_canonical (distinct priorities), c16_canonical_ties and c16_cartesian (no distinctness needed: the tree IS "
             "the Cartesian tree of its in-order list, independent of the history); c16_model_check_spec_check. Height: PARTIAL "
             "(c16_height_partial) - finite computations inside Coq for the named adversarial families (sorted appends, front inserts, "
             "insert + split-and-swap) with the modelled generator for n = 2^k, k <= 14, plus an implementation-level search up to 10^6 "
